@@ -801,7 +801,11 @@ where
         let mut futs = vec![];
         for (_, cmd) in slotted_kvs {
             let resp = Resp::Arr(Array::Arr(cmd));
-            let (sub_cmd_ctx, fut) = factory.create_with_ctx(cmd_ctx.get_context(), resp);
+            let (mut sub_cmd_ctx, fut) = factory.create_with_ctx(cmd_ctx.get_context(), resp);
+            // Keep the sub command tagged as forwarded by another proxy.
+            if let Some(times) = cmd_ctx.get_redirection_times() {
+                sub_cmd_ctx.set_redirection_times(times);
+            }
             futs.push(fut);
             self.handle_single_key_data_cmd(sub_cmd_ctx);
         }
@@ -1099,7 +1103,14 @@ where
 
     fn handle_single_key_data_cmd(&self, cmd_ctx: CmdCtx) {
         let mut cmd_ctx = cmd_ctx;
-        match self.compressor.try_compressing_cmd_ctx(&mut cmd_ctx) {
+        // The command forwarded by another proxy (UMFORWARD)
+        // has already been compressed by that proxy.
+        let compression_result = if cmd_ctx.get_redirection_times().is_some() {
+            Ok(())
+        } else {
+            self.compressor.try_compressing_cmd_ctx(&mut cmd_ctx)
+        };
+        match compression_result {
             Ok(())
             | Err(CompressionError::UnsupportedCmdType)
             | Err(CompressionError::Disabled) => (),
